@@ -4,6 +4,7 @@ From Coq Require Import Strings.Byte.
 From Coq Require Import List NArith.
 From Goit Require Import Bytes Sha1 Obj Tree BytesFacts ObjFacts TreeFacts.
 From Goit Require Import Index World Repo Inv SnapshotFacts.
+From Goit Require Import Bridge.
 Import ListNotations.
 Local Open Scope N_scope.
 
@@ -11,6 +12,13 @@ Local Open Scope N_scope.
 Definition holds (st : store) (ds : list bytes) : Prop :=
   forall d, In d ds -> st_lookup st (obj_id KTree d) = Some (payload KTree d).
 Definition small (ds : list bytes) : Prop := forall d, In d ds -> lenN d < 2 ^ 63.
+
+(* T0 (tie to the source): every regexp literal of the current Go source denotes
+   the same language, with the same anchoring, as the pattern of the model — proved
+   by running the verified equivalence checker on SrcRegex.v, which is regenerated
+   from /repo on every run (see Bridge.v) *)
+Theorem C05_source_patterns_are_the_models : source_patterns_agree.
+Proof. exact source_patterns. Qed.
 
 (* T0: the writer terminates within its fuel for every valid entry list *)
 Theorem C05_write_tree_total : forall es,
@@ -91,3 +99,4 @@ Print Assumptions C05_commit_snapshot_is_staging_area.
 Print Assumptions C05_reset_reads_the_snapshot.
 Print Assumptions C05_reset_restores_what_was_staged.
 Print Assumptions C05_invariants_on_every_history.
+Print Assumptions C05_source_patterns_are_the_models.
